@@ -368,6 +368,10 @@ fn write_hist_a(
     entity: &mut bevy_replicon::shared::replication::deferred_entity::DeferredEntity,
     message: &mut Bytes,
 ) -> bevy::ecs::error::Result<()> {
+    if !entity.contains::<HistMarker>() {
+        // the library selects a marker's functions only for entities that carry the marker
+        return Err("the write function of HistMarker was called for an entity without the marker".into());
+    }
     let value: A = rule_fns.deserialize(ctx, message)?;
     let newest = entity
         .get::<bevy_replicon::client::confirm_history::ConfirmHistory>()
